@@ -25,6 +25,10 @@ type Terms struct {
 
 	leafMemo map[string]bool
 	quot     map[string]quotient
+
+	// Dead lists CFG edges (block indices) known to be infeasible (a re-tested condition decided by
+	// a dominating fact, see FuncFacts.foldDecided); the reaching-store analysis of locals ignores them.
+	Dead map[[2]int]bool
 }
 
 // PureNote is recorded in every evidence file.
@@ -629,7 +633,7 @@ func allocMode(a *ssa.Alloc) int {
 	for _, r := range *a.Referrers() {
 		switch r := r.(type) {
 		case *ssa.Store:
-			if r.Addr != a {
+			if r.Addr != a && !aliasPanicOnly(r) {
 				return 1
 			}
 		case *ssa.UnOp, *ssa.DebugRef:
@@ -659,6 +663,127 @@ func allocMode(a *ssa.Alloc) int {
 		}
 	}
 	return 0
+}
+
+// aliasPanicOnly: st stores the address of a local into a pointer variable whose only other use
+// is to be captured by a closure that is only deferred and that writes through the pointer only
+// while panicking (recover() != nil) — `defer recoverInto(&res)` after inlining. For the
+// normal-return value of the local this is not a writer.
+func aliasPanicOnly(st *ssa.Store) bool {
+	holder, ok := st.Addr.(*ssa.Alloc)
+	if !ok || holder.Referrers() == nil {
+		return false
+	}
+	for _, r := range *holder.Referrers() {
+		switch x := r.(type) {
+		case *ssa.Store:
+			if x != st {
+				return false
+			}
+		case *ssa.DebugRef:
+		case *ssa.MakeClosure:
+			if x.Referrers() != nil {
+				for _, rr := range *x.Referrers() {
+					switch rr.(type) {
+					case *ssa.Defer, *ssa.DebugRef:
+					default:
+						return false
+					}
+				}
+			}
+			fn, _ := x.Fn.(*ssa.Function)
+			if fn == nil {
+				return false
+			}
+			for i, b := range x.Bindings {
+				if b != ssa.Value(holder) || i >= len(fn.FreeVars) {
+					continue
+				}
+				if !pointerWrittenOnlyPanicking(fn, fn.FreeVars[i]) {
+					return false
+				}
+			}
+		default:
+			return false
+		}
+	}
+	return true
+}
+
+// pointerWrittenOnlyPanicking: fv holds a pointer; every store through a pointer derived from it
+// (directly or via a local copy) in fn is guarded by recover() != nil.
+func pointerWrittenOnlyPanicking(fn *ssa.Function, fv *ssa.FreeVar) bool {
+	t := NewTerms(nil, fn)
+	ff := NewFuncFacts(t)
+	guardedAt := func(b *ssa.BasicBlock) bool {
+		for _, f := range ff.At(b) {
+			if f.Op == "EQ" && !f.Pos && (f.A == "nil" || f.B == "nil") {
+				other := f.A
+				if other == "nil" {
+					other = f.B
+				}
+				ok := false
+				Instrs(fn, func(in ssa.Instruction) {
+					if c, isCall := in.(*ssa.Call); isCall && t.Of(c) == other {
+						if b, isB := c.Call.Value.(*ssa.Builtin); isB && b.Name() == "recover" {
+							ok = true
+						}
+					}
+				})
+				if ok {
+					return true
+				}
+			}
+		}
+		return false
+	}
+	seen := map[ssa.Value]bool{}
+	var ptrOK func(v ssa.Value, depth int) bool // v is (an address holding) the pointer
+	ptrOK = func(v ssa.Value, depth int) bool {
+		if seen[v] || depth > 4 {
+			return true
+		}
+		seen[v] = true
+		refs := v.Referrers()
+		if refs == nil {
+			return true
+		}
+		for _, r := range *refs {
+			switch x := r.(type) {
+			case *ssa.DebugRef:
+			case *ssa.UnOp:
+				// load of the pointer (from the free variable or a local copy): its uses
+				for _, rr := range *x.Referrers() {
+					switch y := rr.(type) {
+					case *ssa.DebugRef:
+					case *ssa.Store:
+						if y.Addr == ssa.Value(x) {
+							if !guardedAt(y.Block()) {
+								return false
+							}
+						} else if al, isAl := y.Addr.(*ssa.Alloc); isAl && y.Val == ssa.Value(x) {
+							// copied into a local (parameter binding of an inlined helper)
+							if !ptrOK(al, depth+1) {
+								return false
+							}
+						} else {
+							return false
+						}
+					case *ssa.UnOp:
+						// reading through the pointer
+					default:
+						return false
+					}
+				}
+			case *ssa.Store:
+				// initialisation of a local copy
+			default:
+				return false
+			}
+		}
+		return true
+	}
+	return ptrOK(fv, 0)
 }
 
 // panicOnlyWriter: the closure is only deferred and every store it makes to the
@@ -795,7 +920,7 @@ func (t *Terms) reachingStore(a *ssa.Alloc, load *ssa.UnOp) ssa.Value {
 		first := true
 		var res cell
 		for _, p := range b.Preds {
-			if !vis[p.Index] {
+			if !vis[p.Index] || t.Dead[[2]int{p.Index, b.Index}] {
 				continue
 			}
 			o := out[p.Index]
@@ -820,7 +945,7 @@ func (t *Terms) reachingStore(a *ssa.Alloc, load *ssa.UnOp) ssa.Value {
 			if b.Index != 0 {
 				any := false
 				for _, p := range b.Preds {
-					if vis[p.Index] {
+					if vis[p.Index] && !t.Dead[[2]int{p.Index, b.Index}] {
 						any = true
 					}
 				}
